@@ -54,6 +54,7 @@ def summarize(fx, hname, fargs, spec=255, max_paths=6000):
                     res = 'dynamic:' + render(v)[:60]
         removed = added = 0
         gas = []
+        gas_src = []
         dyn = False
         for (name, args, _f, _b) in p.events:
             short = name.split('::')[-1]
@@ -77,6 +78,7 @@ def summarize(fx, hname, fargs, spec=255, max_paths=6000):
                     added += n + 1
             elif name.endswith('Gas::record_cost'):
                 gas.append(args[1][1] if args[1][0] == 'k' else None)
+                gas_src.append(render(args[1])[:200])
         if p.cut:
             # LOGn idiom: after the two pops of offset/length, one topic is popped per iteration of
             # `0..N` (the guard len >= N is decided under C12): scale the single body pop by N
@@ -92,7 +94,7 @@ def summarize(fx, hname, fargs, spec=255, max_paths=6000):
             # the loop-exit path: the N topic pops happen in the loop (see above)
             removed = 2 + cp['N'][1]
         if res is None or res in SUCCESS_RESULTS:
-            s.success.append({'removed': removed, 'added': added, 'gas': gas, 'result': res, 'dynamic': dyn})
+            s.success.append({'removed': removed, 'added': added, 'gas': gas, 'gas_src': gas_src, 'result': res, 'dynamic': dyn})
         elif isinstance(res, str) and res.startswith('dynamic:'):
             # result copied from a helper (e.g. a Result's Err payload): an error exit
             s.errors.add('dynamic')
